@@ -136,6 +136,7 @@ Inductive cerr :=
 | EStepZero                      (* "ValueError: slice step cannot be zero" *)
 | ENotAllowed | ESelf
 | EEmptyColl (k : Z)             (* non-aborting: "Cannot infer type for empty const list/set/dict" *)
+| EElemMismatch                  (* "Type mismatch": a list/set/dict element differs from the first one's type *)
 | EMismatch (n : name)           (* annotation incompatible (check_and_resolve_const) *)
 | ECannotInfer (n : name)
 | EMalformed.                    (* arity the parser cannot produce *)
@@ -181,8 +182,10 @@ Fixpoint loop_down (fuel : nat) (s : str) (i e k : Z) : option str :=
       else Some []
   end.
 
-(* bounds exactly as str_slice computes them, over Z (the i64 overflow of `i += step` for
-   |step| > MAX - len is C05's finding slice-step-overflow and is excluded by [slice_guard]) *)
+(* bounds exactly as str_slice computes them, over Z.  The real loop does `i.checked_add(step)` and
+   stops when the index leaves i64 — which is what happens over Z, where the next index is then
+   beyond the end bound.  (Before that repair |step| > MAX - len wrapped / panicked: C05's
+   slice-step-overflow.) *)
 Definition cslice_bounds (len : Z) (start end_ : option Z) (step : Z) : Z * Z :=
   let default_start := if step >? 0 then 0 else len - 1 in
   let default_end := if step >? 0 then len else -1 in
@@ -202,9 +205,6 @@ Definition cslice (s : str) (start end_ step : option Z) : slice_out :=
   | Some r => SliceOk r
   | None => SliceOutOfFuel
   end.
-
-Definition slice_guard (s : str) (step : option Z) : Prop :=
-  match step with Some k => Z.abs k <= MAX64 - slen s | None => True end.
 
 (* str::contains on scalar sequences *)
 Fixpoint prefix_of (p s : str) : bool :=
@@ -303,8 +303,9 @@ Definition comb_index (b i : cresult) : comb :=
        | _, _ => COk None (mkres TFStr true None)
        end.
 
-(* the bound VALUES the code passes to str_slice: `ty.value.as_ref().and_then(const_int)` —
-   an int-typed bound whose value was not computed becomes None, i.e. "bound omitted" *)
+(* the bound VALUES the code passes to str_slice: `ty.value.as_ref().and_then(const_int)`; the
+   slice VALUE is computed only when every PRESENT bound has a known int value (bounds_known) *)
+Definition int_valued (r : cresult) : bool := match rval r with Some (VInt _) => true | _ => false end.
 Definition take_bound (present : bool) (rs : list cresult) : option (option Z * list cresult) :=
   if present then match rs with r :: rest => Some (vint r, rest) | [] => None end
   else Some (None, rs).
@@ -321,7 +322,7 @@ Definition comb_slice (lo hi st : bool) (rs : list cresult) : comb :=
       | Some (ev, rest2) =>
       match take_bound st rest2 with
       | Some (kv, []) =>
-          match vstr b with
+          match (if forallb int_valued rest then vstr b else None) with
           | Some s =>
               match cslice s sv ev kv with
               | SliceOk out => COk None (mkres TFStr true (Some (VStr out)))
@@ -380,13 +381,22 @@ Definition slice_which (lo hi : bool) (i : nat) : Z :=
   | _, _, _ => 2
   end.
 
-(* the test the code runs right after evaluating child i, before evaluating child i+1 *)
-Definition precheck (t : tag) (i : nat) (r : cresult) : option cerr :=
+(* the test the code runs right after evaluating child i (prev = the results of children 0..i-1),
+   before evaluating child i+1 *)
+Definition elem_check (first r : cresult) : option cerr :=
+  if compat (rty r) (rty first) then None else Some EElemMismatch.
+Definition precheck (t : tag) (i : nat) (prev : list cresult) (r : cresult) : option cerr :=
   match t with
   | NSlice lo hi _ =>
       match i with
       | O => if is_str_like (rty r) then None else Some ESliceBase
       | _ => if is_intlike (rty r) then None else Some (ESliceBound (slice_which lo hi i))
+      end
+  | NList | NSet => match prev with first :: _ => elem_check first r | [] => None end
+  | NDict =>
+      match prev with
+      | k :: v :: _ => elem_check (if Nat.even i then k else v) r
+      | _ => None
       end
   | _ => None
   end.
@@ -448,7 +458,7 @@ Section Eval.
         if is_decl ds n then rec stack s n
         else Some (push_err (ENonConst n) s, None)
     | ENode t es =>
-        match ceval_list stack s t O es with
+        match ceval_list stack s t O [] es with
         | None => None
         | Some (s1, None) => Some (s1, None)
         | Some (s1, Some rs) =>
@@ -458,7 +468,7 @@ Section Eval.
             end
         end
     end
-  with ceval_list (stack : list name) (s : cstate) (t : tag) (i : nat) (es : exprs)
+  with ceval_list (stack : list name) (s : cstate) (t : tag) (i : nat) (prev : list cresult) (es : exprs)
        : option (cstate * option (list cresult)) :=
     match es with
     | ENil => Some (s, Some [])
@@ -467,10 +477,10 @@ Section Eval.
         | None => None
         | Some (s1, None) => Some (s1, None)
         | Some (s1, Some r) =>
-            match precheck t i r with
+            match precheck t i prev r with
             | Some err => Some (push_err err s1, None)
             | None =>
-                match ceval_list stack s1 t (S i) rest with
+                match ceval_list stack s1 t (S i) (prev ++ [r]) rest with
                 | None => None
                 | Some (s2, None) => Some (s2, None)
                 | Some (s2, Some rs) => Some (s2, Some (r :: rs))
@@ -544,20 +554,20 @@ Section Pure.
         if is_decl ds n then match c n with Some r => POk r | None => PDep n end
         else PErr (ENonConst n)
     | ENode t es =>
-        match cexpr_list t O es with
+        match cexpr_list t O [] es with
         | inl p => p
         | inr rs => match combine t es rs with CAbort err => PErr err | COk _ r => POk r end
         end
     end
-  with cexpr_list (t : tag) (i : nat) (es : exprs) : pres + list cresult :=
+  with cexpr_list (t : tag) (i : nat) (prev : list cresult) (es : exprs) : pres + list cresult :=
     match es with
     | ENil => inr []
     | ECons e rest =>
         match cexpr e with
         | POk r =>
-            match precheck t i r with
+            match precheck t i prev r with
             | Some err => inl (PErr err)
-            | None => match cexpr_list t (S i) rest with inl p => inl p | inr rs => inr (r :: rs) end
+            | None => match cexpr_list t (S i) (prev ++ [r]) rest with inl p => inl p | inr rs => inr (r :: rs) end
             end
         | p => inl p
         end
@@ -844,14 +854,7 @@ Fixpoint has_type (v : value) (t : ty) : bool :=
   end.
 
 (* ------------------------------------------------------------------ known-finding classes *)
-Definition pty (p : pres) : option ty := match p with POk r => Some (rty r) | _ => None end.
 
-(* Known_C06_slice_bound_unvalued: a slice whose base value is known while a PRESENT bound's
-   value is not (const_eval.rs treats that bound as omitted). *)
-Definition pvalued_str (p : pres) : bool :=
-  match p with POk r => match rval r with Some (VStr _) => true | _ => false end | _ => false end.
-Definition pvalued_int (p : pres) : bool :=
-  match p with POk r => match rval r with Some (VInt _) => true | _ => false end | _ => false end.
 (* "if it evaluates at all, its value is known" *)
 Definition ok_valued (p : pres) : bool :=
   match p with POk r => match rval r with Some _ => true | None => false end | _ => true end.
@@ -864,59 +867,19 @@ Definition tag_strict (t : tag) : bool :=
 
 Section Classes.
   Context (ds : list decl) (c : cenv).
-  Fixpoint all_int_valued (es : exprs) : bool :=
-    match es with ENil => true | ECons e r => pvalued_int (cexpr ds c e) && all_int_valued r end.
-  Definition bounds_unvalued (t : tag) (es : exprs) : bool :=
-    match t, es with
-    | NSlice _ _ _, ECons b rest => pvalued_str (cexpr ds c b) && negb (all_int_valued rest)
-    | _, _ => false
-    end.
-  Fixpoint unvalued_bound (e : expr) : bool :=
-    match e with
-    | ENode t es => bounds_unvalued t es || unvalued_bound_list es
-    | _ => false
-    end
-  with unvalued_bound_list (es : exprs) : bool :=
-    match es with ENil => false | ECons e r => unvalued_bound e || unvalued_bound_list r end.
-
   (* the fragment on which compile-time diagnostics and run-time exceptions coincide exactly:
      strict string operators only (no `and`/`or`: lazy at run time, eager at compile time; no
      numeric arithmetic / comparison: only a type is computed), and every sub-expression that
-     evaluates has a known value *)
+     evaluates has a known value.  Its complement is Known_C06_error_operand_unvalued /
+     Known_C06_eager_and_or. *)
   Fixpoint vfrag (e : expr) : bool :=
     match e with
     | ELit _ => true
     | EIdent _ => ok_valued (cexpr ds c e)
-    | ENode t es => tag_strict t && vfrag_list es && ok_valued (cexpr ds c e) && negb (bounds_unvalued t es)
+    | ENode t es => tag_strict t && vfrag_list es && ok_valued (cexpr ds c e)
     end
   with vfrag_list (es : exprs) : bool :=
     match es with ENil => true | ECons e r => vfrag e && vfrag_list r end.
-
-  (* Known_C06_hetero_collection: a list/set/dict literal whose element (key, value) types are
-     not all the first one's — the evaluator types the collection by its first element only. *)
-  Definition same_ty (a b : expr) : bool :=
-    match pty (cexpr ds c a), pty (cexpr ds c b) with
-    | Some x, Some y => ty_eqb x y
-    | _, _ => true
-    end.
-  Fixpoint all_same (a : expr) (es : exprs) : bool :=
-    match es with ENil => true | ECons e r => same_ty a e && all_same a r end.
-  Fixpoint all_same_alt (k v : expr) (es : exprs) : bool :=
-    match es with
-    | ECons a (ECons b r) => same_ty k a && same_ty v b && all_same_alt k v r
-    | _ => true
-    end.
-  Fixpoint hetero (e : expr) : bool :=
-    match e with
-    | ENode t es =>
-        (match t, es with
-         | (NList | NSet), ECons a rest => negb (all_same a rest)
-         | NDict, ECons k (ECons v rest) => negb (all_same_alt k v rest)
-         | _, _ => false end) || hetero_list es
-    | _ => false
-    end
-  with hetero_list (es : exprs) : bool :=
-    match es with ENil => false | ECons e r => hetero e || hetero_list r end.
 End Classes.
 
 (* ------------------------------------------------------------------ static-str folding (emit/consts.rs) *)
@@ -1018,7 +981,7 @@ Definition enc_err (e : cerr) : list Z :=
   | ELogical => [8] | EOpNotAllowed => [9] | EIndexBase => [10] | EIndexNotInt => [11]
   | ESliceBase => [12] | ESliceBound w => [13; w] | EIndexOOR => [14] | EStepZero => [15]
   | ENotAllowed => [16] | ESelf => [17] | EEmptyColl k => [18; k] | EMismatch n => [19; n]
-  | ECannotInfer n => [20; n] | EMalformed => [21]
+  | ECannotInfer n => [20; n] | EMalformed => [21] | EElemMismatch => [19]
   end.
 (* one row per published const: name :: encoding; then one row per error; separated by [-1] *)
 Definition render_state (s : cstate) : list (list Z) :=
